@@ -322,6 +322,26 @@ def build(run):
             snap["nodes"] = tuple(nodes)
         return snap
 
+    def _compare_with_twin(x):
+        """Compare a form with an equal form whose integrals spell metadata values and subdomain ids differently (2 vs 2.0, 1 vs True):
+        Python's == on dicts / tuples calls them equal.  Comparing must not rewrite either operand."""
+        if not isinstance(x, ufl.Form):
+            return x == x
+
+        def respell(v):
+            if isinstance(v, bool):
+                return v
+            if isinstance(v, int):
+                return float(v)
+            return v
+        twin_integrals = []
+        for it in x.integrals():
+            sid = it.subdomain_id()
+            sid2 = tuple(True if s_ == 1 else s_ for s_ in sid) if isinstance(sid, tuple) else (True if sid == 1 else sid)
+            twin_integrals.append(it.reconstruct(metadata={k: respell(v) for k, v in dict(it.metadata()).items()}, subdomain_id=sid2))
+        twin = ufl.Form(twin_integrals)
+        return (x.equals(twin), bool(x == twin), x != twin, twin.equals(x))
+
     def algs(T):
         from ufl.algorithms import (apply_algebra_lowering, apply_derivatives, apply_function_pullbacks, apply_geometry_lowering, apply_integral_scaling, apply_restrictions,
                                     check_arities, comparison_checker, domain_analysis, estimate_degrees, expand_indices as EI, remove_complex_nodes, remove_component_tensors,
@@ -367,6 +387,7 @@ def build(run):
             ("extract_arguments", lambda x: A.extract_arguments(x)), ("extract_coefficients", lambda x: A.extract_coefficients(x)),
             ("extract_elements", lambda x: A.extract_elements(x)), ("extract_unique_elements", lambda x: A.extract_unique_elements(x)),
             ("signature", lambda x: x.signature()), ("equals", lambda x: x.equals(x) if hasattr(x, "equals") else x == x),
+            ("== / != / equals with an equal form spelled differently", lambda x: _compare_with_twin(x)),
             ("form + form", lambda x: x + x), ("2*form", lambda x: 2 * x), ("-form", lambda x: -x), ("form(f)", lambda x: x * f if not isinstance(x, ufl.Form) else ufl.action(x)),
             ("Measure call / Integral.reconstruct", lambda x: [it.reconstruct(metadata={"q": 1}) for it in x.integrals()]),
             ("str", lambda x: str(x)), ("check_arities", lambda x: check_arities.check_form_arity(x, x.arguments(), False)),
